@@ -4,6 +4,8 @@ import (
 	"bytes"
 	"context"
 	"fmt"
+	"io"
+	"net/http"
 	"net/http/httptest"
 	"strings"
 	"sync"
@@ -12,6 +14,7 @@ import (
 	goat "github.com/avos-io/goat"
 	"github.com/avos-io/goat/gen/goatorepo"
 	"github.com/jonboulle/clockwork"
+	"google.golang.org/protobuf/proto"
 )
 
 // c19HttpStale: an HTTP connection object outlives its registration — the idle cleaner (or an earlier
@@ -333,4 +336,73 @@ func c19HttpFirstContact(r *Run) {
 		r.Eval("http.firstcontact/"+src, true)
 	}
 	r.CountN("http.firstcontact.rounds", rounds)
+}
+
+// c19HttpChunked: a well-formed envelope POSTed without a Content-Length (a body of undeclared length goes
+// out with Transfer-Encoding: chunked — a client streaming from a reader, a non-Go peer, an unbuffered
+// reverse proxy) is an envelope like any other: 200, delivered, equal to what was written, in order with
+// its neighbours.
+func c19HttpChunked(r *Run) {
+	rng := r.Rand("c19.chunked")
+	node := c19NewNode(c19IdentityMapper)
+	defer node.Close()
+	n := r.Scale(12, 300)
+	ctx, cancel := context.WithTimeout(context.Background(), 6*hangTimeout)
+	defer cancel()
+	var rw goat.RpcReadWriter
+	for i := 0; i < n && r.NumViolations() <= 4; i++ {
+		e := c19Env(rng, 31, r.Scale(4<<10, 96<<10), false)
+		if e.Header == nil {
+			e.Header = &goatorepo.RequestHeader{}
+		}
+		e.Header.Source = "chunky"
+		e.Id = uint64(i + 1)
+		raw, _ := goat_marshal(e)
+		chunked := i%2 == 1
+		in := map[string]any{"i": i, "chunked": chunked, "bytes": len(raw)}
+		r.Progress("http.chunked", in)
+		var body io.Reader = bytes.NewReader(raw)
+		if chunked {
+			body = struct{ io.Reader }{body} // hides the length: net/http sends it chunked
+		}
+		type res struct {
+			code int
+			err  error
+		}
+		posted := make(chan res, 1)
+		go func() {
+			req, _ := http.NewRequestWithContext(ctx, "POST", node.ts.URL, body)
+			resp, err := node.ts.Client().Do(req)
+			if err != nil {
+				posted <- res{0, err}
+				return
+			}
+			io.Copy(io.Discard, resp.Body)
+			resp.Body.Close()
+			posted <- res{resp.StatusCode, nil}
+		}()
+		if rw == nil {
+			select {
+			case c := <-node.conns:
+				rw = c.rw
+			case p := <-posted:
+				r.Violate("http.chunked.status", "ops", "a well-formed envelope was not accepted", in, fmt.Sprint(p.code, " ", p.err), 200)
+				return
+			case <-ctx.Done():
+				return
+			}
+		}
+		got, err := rw.Read(ctx)
+		p := <-posted
+		switch {
+		case p.err != nil || p.code != 200:
+			r.Violate("http.chunked.status", "ops", "a well-formed envelope POSTed without a Content-Length was not accepted", in, fmt.Sprint(p.code, " ", p.err), 200)
+			return
+		case err != nil || !proto.Equal(got, e):
+			r.Violate("http.chunked.delivery", "ops", "the envelope read is not the envelope posted", in, fmt.Sprint(c19Brief(got), " ", err), c19Brief(e))
+			return
+		}
+		r.Eval(fmt.Sprintf("http.chunked/%d", i), true)
+		r.Count(fmt.Sprintf("http.chunked.%v", chunked))
+	}
 }
